@@ -1,0 +1,148 @@
+//go:build verif
+
+package regexp2
+
+// Verification hooks (build tag "verif"). Everything in this file is inert unless a
+// harness installs a callback; with the tag off verif_off.go provides empty stubs.
+
+import (
+	"sync"
+
+	"github.com/dlclark/regexp2/v2/syntax"
+)
+
+var (
+	// VerifOnStep is called before every opcode dispatch of the interpreter.
+	VerifOnStep func(r *Runner)
+	// VerifOnScanStart is called after initMatch, before the first candidate search of a scan.
+	VerifOnScanStart func(r *Runner)
+	// VerifOnFind is called after every candidate search: scan position before and after, result.
+	VerifOnFind func(r *Runner, from, to int, found bool)
+	// VerifOnGrow is called when the backtracking stack is asked to grow.
+	VerifOnGrow func(r *Runner, oldCap, newCap int)
+	// VerifOnPoint is called at the shared-state linearization points
+	// (getRunner, putRunner, bufGet, bufPut, cacheGet, cacheAdd, clock*). It may block:
+	// a harness uses it as a scheduler gate.
+	VerifOnPoint func(point string, obj any, a, b int)
+
+	verifNaiveMu  sync.RWMutex
+	verifNaiveSet = map[*Regexp]bool{}
+)
+
+func verifStep(r *Runner) {
+	if VerifOnStep != nil {
+		VerifOnStep(r)
+	}
+}
+
+func verifScanStart(r *Runner) {
+	if VerifOnScanStart != nil {
+		VerifOnScanStart(r)
+	}
+}
+
+func verifGrow(r *Runner, oldCap, newCap int) {
+	if VerifOnGrow != nil {
+		VerifOnGrow(r, oldCap, newCap)
+	}
+}
+
+func verifPoint(point string, obj any, a, b int) {
+	if VerifOnPoint != nil {
+		VerifOnPoint(point, obj, a, b)
+	}
+}
+
+func verifIsNaive(re *Regexp) bool {
+	verifNaiveMu.RLock()
+	defer verifNaiveMu.RUnlock()
+	return verifNaiveSet[re]
+}
+
+// verifWrapFind wraps the candidate search of one scan.
+func verifWrapFind(r *Runner, f func(r *Runner) bool) func(r *Runner) bool {
+	if verifIsNaive(r.re) {
+		// all acceleration disabled: every position in scan order is a candidate
+		return func(r *Runner) bool { return true }
+	}
+	if VerifOnFind == nil {
+		return f
+	}
+	return func(r *Runner) bool {
+		from := r.Runtextpos
+		found := f(r)
+		VerifOnFind(r, from, r.Runtextpos, found)
+		return found
+	}
+}
+
+func verifMinLen(r *Runner, n int) int {
+	if verifIsNaive(r.re) {
+		return 0
+	}
+	return n
+}
+
+// VerifNaive returns a copy of re that attempts the compiled program at every position in scan
+// order: no candidate search, no string prefix filter, no minimum-length cut-off, no bump-along
+// shortcut. The copy shares the compiled program with re.
+func VerifNaive(re *Regexp) *Regexp {
+	c := &Regexp{
+		MatchTimeout:  re.MatchTimeout,
+		pattern:       re.pattern,
+		options:       re.options,
+		debug:         re.debug,
+		caps:          re.caps,
+		capnames:      re.capnames,
+		capslist:      re.capslist,
+		capsize:       re.capsize,
+		code:          re.code,
+		optimizations: re.optimizations,
+		quickCode:     re.quickCode,
+	}
+	c.initCaches()
+	verifNaiveMu.Lock()
+	verifNaiveSet[c] = true
+	verifNaiveMu.Unlock()
+	return c
+}
+
+// VerifCode exposes the compiled program (for exporting it to the specification).
+func VerifCode(re *Regexp) *syntax.Code { return re.code }
+
+// VerifQuickCode exposes the bool-only program, nil if there is none.
+func VerifQuickCode(re *Regexp) *syntax.Code { return re.quickCode }
+
+// VerifState projects the interpreter state the specification talks about.
+type VerifState struct {
+	Codepos, Operator, Textpos, Textstart  int
+	TrackDepth, StackDepth, CrawlDepth     int
+	TrackCap, StackCap, CrawlCap, TrackCnt int
+	Quick, HasMatchObj, Balancing          bool
+	MatchCount0                            int
+}
+
+func (r *Runner) VerifState() VerifState {
+	s := VerifState{
+		Codepos: r.codepos, Operator: int(r.operator), Textpos: r.Runtextpos, Textstart: r.Runtextstart,
+		TrackDepth: len(r.runtrack) - r.Runtrackpos, StackDepth: len(r.runstack) - r.Runstackpos,
+		CrawlDepth: len(r.runcrawl) - r.runcrawlpos,
+		TrackCap:   len(r.runtrack), StackCap: len(r.runstack), CrawlCap: len(r.runcrawl), TrackCnt: r.runtrackcount,
+		Quick: r.code != r.re.code, HasMatchObj: r.runmatch != nil,
+	}
+	if r.runmatch != nil {
+		s.Balancing = r.runmatch.balancing
+		s.MatchCount0 = r.runmatch.matchcount[0]
+	}
+	return s
+}
+
+// VerifRegexp returns the Regexp a runner belongs to.
+func (r *Runner) VerifRegexp() *Regexp { return r.re }
+
+// VerifClockState reads the timeout clock's shared state (the caller must not hold fast.mu).
+func VerifClockState() (current, clockEnd int64, running bool, started bool) {
+	fast.mu.Lock()
+	defer fast.mu.Unlock()
+	return int64(fast.current.read()), int64(fast.clockEnd.read()), fast.running, !fast.start.IsZero()
+}
